@@ -341,6 +341,9 @@ func unknownTable(t *rapid.T, existing []byte) []byte {
 	return []byte(rapid.SampledFrom([]string{"nope", "nope", e + "/", e + "/.", "./" + e, "/" + e, "x/../" + e, "../tables/" + e, e + "//", strings.ToUpper(e), e + " ", " " + e, e + "x", e[:max(1, len(e)-1)] + "?"}).Draw(t, "unknownname"))
 }
 
+// errCouldNotJudge: a comparison read timed out (saturated machine); never reported.
+var errCouldNotJudge = &vt.Failure{Signature: "harness/could-not-judge"}
+
 func genCase(t *rapid.T) Case {
 	n := rapid.IntRange(3, 25).Draw(t, "n")
 	c := Case{}
@@ -577,6 +580,9 @@ func runInner(c Case, o *vt.Obs) *vt.Failure {
 				if f := alive(step, r); f != nil {
 					return f
 				}
+				if c := status.Code(err); c == codes.DeadlineExceeded || c == codes.Unavailable {
+					return errCouldNotJudge
+				}
 				return vt.Failf(prop+"/table-unreadable", step, "table %s after %s: %v", tb, r.Method, err)
 			}
 			if err := same(got, models[tb].Pairs); err != nil {
@@ -597,10 +603,21 @@ func runInner(c Case, o *vt.Obs) *vt.Failure {
 		}
 	}
 	nested, toFollower := false, false
+	cutShort := false
+reqs:
 	for i, r := range c.Reqs {
 		code, resp, err := send(proc(r.Target), r)
 		if f := alive(i, r); f != nil {
 			return f
+		}
+		if code == codes.DeadlineExceeded || code == codes.Unavailable || code == codes.Canceled {
+			// could not be judged: the client-side deadline (30 s) expired or the transport was unavailable - a saturated machine, a stream
+			// being re-established.  (Seen in a thorough run next to a dozen other jobs: reported as "valid request refused" - a false
+			// alarm.)  Neither status is the documented answer to anything; the case ends here, the next one starts from a reset.
+			time.Sleep(2 * time.Second)
+			o.Label("case-cut-short-by-a-timeout-or-unavailable-transport")
+			cutShort = true
+			break reqs
 		}
 		switch r.Class {
 		case "invalid":
@@ -625,6 +642,11 @@ func runInner(c Case, o *vt.Obs) *vt.Failure {
 				return vt.Failf(prop+"/wrong-status-code:"+r.Defects[0], i, "%s with defect %v sent to the %s: status %s (%v), documented %s", r.Method, r.Defects, r.Target, code, err, codes.Code(r.Code))
 			}
 			if f := unchanged(i, r); f != nil {
+				if f == errCouldNotJudge {
+					o.Label("case-cut-short-by-a-timeout-or-unavailable-transport")
+					cutShort = true
+					break reqs
+				}
 				return f
 			}
 		case "hostile":
@@ -655,7 +677,7 @@ func runInner(c Case, o *vt.Obs) *vt.Failure {
 	if toFollower {
 		o.Label("defect-sent-to-the-follower")
 	}
-	o.NonTrivial = nested || toFollower
+	o.NonTrivial = (nested || toFollower) && !cutShort
 	o.Describe = func() string {
 		s := ""
 		for i, r := range c.Reqs {
